@@ -18,6 +18,7 @@ pub fn units(tier: &str, _seed: u64) -> Vec<String> {
         "1/U:ACS:EAMBIENTE;1/U:ACS:ELECTRICIDAD",
         "1/U:ACS:EAMBIENTE;1/P:EAMBIENTE",
         "-3/U:ACS:TERMOSOLAR;-3/U:ACS:GASNATURAL",
+        "2/U:CAL:GASNATURAL#caldera, rend. 0.9 {HASH} dato de fabricante;2/O:CAL#salida {HASH} medida;2/X#aux {HASH} bomba;P:EL_INSITU#PV {HASH} cubierta",
     ];
     let mut v = vec![];
     for s in shapes {
@@ -64,6 +65,11 @@ pub fn scenario(u: &Unit) -> String {
     ob("meta.len", if comps.meta.len() == c2.meta.len() { t() } else { f() });
     for (a, b) in comps.meta.iter().zip(c2.meta.iter()) {
         ob(&format!("meta.{}", a.key), if a.key == b.key && a.value == b.value { t() } else { f() });
+    }
+    // the comments that were declared are the comments that are read back (not merely a fixed point of read-write-read)
+    for l in lines.iter().filter(|l| !l.comment.is_empty() && l.kind != 'D') {
+        let want = l.comment.replace("{HASH}", "#");
+        ob(&format!("declared-comment-survives:{}", want), if c2.data.iter().any(|c| c.comment() == want) { t() } else { f() });
     }
     // components: same tags, ids, comments and values, in the same order
     ob("data.len", if comps.data.len() == c2.data.len() { t() } else { f() });
